@@ -67,7 +67,7 @@ class ModelCoercerProvider(CoercerProvider):
         if len(exception_and_type_list) == 1:
             raise CannotProvide(
                 parent_notes_gen=lambda: [
-                    f"Hint: Class `{exception_and_type_list[0][1].__name__}` is not recognized as model."
+                    f"Hint: Class `{self._get_type_name(exception_and_type_list[0][1])}` is not recognized as model."
                     " Did your forget `@dataclass` decorator? Check documentation what model kinds are supported",
                 ],
             )
@@ -77,6 +77,10 @@ class ModelCoercerProvider(CoercerProvider):
                 [exc for exc, tp in exception_and_type_list],
             )
         return dst_shape, src_shape
+
+    def _get_type_name(self, tp) -> str:
+        # not every type hint has a name (``int | None`` does not)
+        return getattr(tp, "__name__", None) or str(tp)
 
     def _make_coercer(
         self,
